@@ -435,13 +435,14 @@ func checkC15(c *core.Ctx) {
 	}
 	if c.Thorough() {
 		collect(c15Driver(0, 3, 3, 2))
+		// k = 4 with one redundant pair of parentheses (k = 5 would be > 10^7 cases held in memory: not attempted)
+		collect(c15Driver(4, 4, 4, 0))
+		collect(c15LongDriver(14, 6))
+	} else {
+		collect(c15Driver(0, 3, 3, 2))
 		// k = 4 with minimal parenthesisation only
 		collect(c15Driver(4, 4, 0, 0))
 		collect(c15LongDriver(12, 5))
-	} else {
-		collect(c15Driver(0, 2, 2, 2))
-		collect(c15Driver(3, 3, 0, 0))
-		collect(c15LongDriver(8, 4))
 	}
 	c.Count(0, st.States, st.Transitions, 0)
 	c.Set("explorer", map[string]any{"executions": st.Executions, "max_depth": st.MaxDepth})
